@@ -161,6 +161,8 @@ _PF_TEMPLATES = {
     'kwdefault': 'def w(a, *args, target=DEFAULT, **kwargs):\n    return target(*args, **kwargs)\n',
     # callee bound by keyword: keywords do not resolve callee parameters
     'kwbound': 'def w(a, *args, target=DEFAULT, **kwargs):\n    return target(*args, **kwargs)\n',
+    # the callee is itself a partial of a forwarding wrapper, and one more bound positional spills through *args
+    'nestedpartial': 'def w1(cb1, *args, **kwargs):\n    return cb1(*args, **kwargs)\ndef w(cb, *args, **kwargs):\n    return cb(*args, **kwargs)\n',
     # callee bound by keyword to the wrapper's FIRST parameter (no unbound parameter before it): keywords still do not resolve
     'kwleading': 'def w(target, *args, **kwargs):\n    return target(*args, **kwargs)\n',
     # callee is a module global: discovery needs no bound argument at all, and must still happen
@@ -185,6 +187,8 @@ def rt_partialfwd(req):
         src += ['p = functools.partial(w, callee%s)' % ''.join(', %d' % (700 + i) for i in range(extra))]
     elif tmpl == 'kwdefault':
         src += ['p = functools.partial(w, 1%s)' % ''.join(', %d' % (700 + i) for i in range(extra))]
+    elif tmpl == 'nestedpartial':
+        src += ['p = functools.partial(w, functools.partial(w1, callee)%s)' % ''.join(', %d' % (700 + i) for i in range(extra))]
     elif tmpl == 'kwleading':
         src += ['p = functools.partial(w, target=callee)']
     elif tmpl == 'globnone':
@@ -236,7 +240,7 @@ def rt_partialfwd(req):
                             sig, m, K, e, text))
                         break
             return ('ok', tuple(problems[:2]), 'glob-executed:%d' % ran)
-        if tmpl != 'posparam' and str(sig) != str(plain):
+        if tmpl not in ('posparam', 'nestedpartial') and str(sig) != str(plain):
             problems.append('partialfwd-resolved-unbound: the callee is not bound positionally, yet sigtools.signature(p) = %s differs from '
                             'signatures.signature(p) = %s\n%s' % (sig, plain, text))
         d = sig.sources['+depths'].get(mod.p)
